@@ -1,4 +1,656 @@
 import DendroModel.Model.C05
+import DendroModel.Props.C01
+import DendroModel.Theory.Greedy
+import DendroModel.Theory.FracRat
+import Mathlib.Tactic
+import Mathlib.Algebra.Order.Field.Rat
+import Mathlib.Algebra.BigOperators.Group.List.Basic
+/-! C05 — property theorems about the summaries of `Model/C05.lean`. -/
+namespace DendroModel.C05.Aux
+open DendroModel DendroModel.C05
+
+theorem countOf_addCount (d : List (Int × Rat)) (k : Int) (w : Rat) (s : Int) :
+    countOf (addCount d k w) s = if s = k then some ((countOf d s).getD 0 + w) else countOf d s := by
+  induction d with
+  | nil =>
+    by_cases h : s = k
+    · subst h; simp [addCount, countOf]
+    · have : ¬ k = s := fun e => h e.symm
+      simp [addCount, countOf, h, this]
+  | cons q rest ih =>
+    simp only [addCount]
+    by_cases hq : q.1 = k
+    · simp only [hq, beq_self_eq_true, if_true]
+      by_cases h : s = k
+      · subst h; simp [countOf, hq]
+      · have : ¬ k = s := fun e => h e.symm
+        simp [countOf, h, hq, this]
+    · have hq' : (q.1 == k) = false := by simpa using hq
+      simp only [hq', Bool.false_eq_true, if_false]
+      by_cases hqs : q.1 = s
+      · have hsk : ¬ s = k := fun e => hq (hqs.trans e)
+        simp [countOf, hqs, hsk]
+      · have e1 : countOf ((q.1, q.2) :: addCount rest k w) s = countOf (addCount rest k w) s := by
+          simp [countOf, hqs]
+        have e2 : countOf (q :: rest) s = countOf rest s := by
+          simp [countOf, hqs]
+        rw [e1, e2]; exact ih
+
+theorem countOf_fold (w : Rat) (s : Int) : ∀ (splits : List Int) (d : List (Int × Rat)),
+    countOf (splits.foldl (fun d x => addCount d x w) d) s
+      = if s ∈ splits then some ((countOf d s).getD 0 + w * (splits.count s : Rat)) else countOf d s := by
+  intro splits
+  induction splits with
+  | nil => intro d; simp
+  | cons x xs ih =>
+    intro d
+    simp only [List.foldl_cons, ih, countOf_addCount]
+    by_cases hx : s = x
+    · subst hx
+      by_cases hm : s ∈ xs
+      · simp [hm, List.count_cons_self]; ring
+      · simp [hm, List.count_eq_zero_of_not_mem hm]
+    · have hx' : ¬ x = s := fun e => hx e.symm
+      by_cases hm : s ∈ xs
+      · simp [hm, hx, hx', List.count_cons_of_ne hx']
+      · simp [hm, hx, hx']
+
+/-- weight with which a tree is counted -/
+def wt (useW : Bool) (t : TreeRec) : Rat :=
+  match t.weight with
+  | some w => if useW then w else 1
+  | none => 1
+
+/-- total weight of the occurrences of a split -/
+def wsum (useW : Bool) (ts : List TreeRec) (s : Int) : Rat :=
+  (ts.map (fun t => wt useW t * (t.splits.count s : Rat))).sum
+
+theorem countAll_gen (s : Int) : ∀ (ts : List TreeRec) (sd : SD),
+    (ts.foldl countTree sd).useWeights = sd.useWeights
+    ∧ (ts.foldl countTree sd).total = sd.total + ts.length
+    ∧ (ts.foldl countTree sd).sumW = sd.sumW + (ts.map (wt sd.useWeights)).sum
+    ∧ countOf (ts.foldl countTree sd).counts s
+        = if ∃ t ∈ ts, s ∈ t.splits then some ((countOf sd.counts s).getD 0 + wsum sd.useWeights ts s)
+          else countOf sd.counts s := by
+  intro ts
+  induction ts with
+  | nil => intro sd; simp [wsum]
+  | cons t rest ih =>
+    intro sd
+    obtain ⟨h1, h2, h3, h4⟩ := ih (countTree sd t)
+    have hu : (countTree sd t).useWeights = sd.useWeights := rfl
+    have hw : weightOf sd t = wt sd.useWeights t := rfl
+    refine ⟨by rw [List.foldl_cons, h1, hu], ?_, ?_, ?_⟩
+    · rw [List.foldl_cons, h2]; simp [countTree]; omega
+    · rw [List.foldl_cons, h3, hu]; simp [countTree, hw]; ring
+    · rw [List.foldl_cons, h4, hu]
+      have hc : countOf (countTree sd t).counts s
+          = if s ∈ t.splits then some ((countOf sd.counts s).getD 0 + wt sd.useWeights t * (t.splits.count s : Rat))
+            else countOf sd.counts s := by
+        simp only [countTree, hw]; exact countOf_fold _ s t.splits sd.counts
+      rw [hc]
+      by_cases hr : ∃ t' ∈ rest, s ∈ t'.splits
+      · have hall : ∃ t' ∈ t :: rest, s ∈ t'.splits := by
+          obtain ⟨t', h, h'⟩ := hr; exact ⟨t', List.mem_cons_of_mem _ h, h'⟩
+        simp only [hr, hall, if_true]
+        by_cases ht : s ∈ t.splits
+        · simp [ht, wsum]; ring
+        · simp [ht, wsum, List.count_eq_zero_of_not_mem ht]
+      · by_cases ht : s ∈ t.splits
+        · have hall : ∃ t' ∈ t :: rest, s ∈ t'.splits := ⟨t, by simp, ht⟩
+          have hz : wsum sd.useWeights rest s = 0 := by
+            unfold wsum
+            apply List.sum_eq_zero
+            intro x hx
+            obtain ⟨t', ht', rfl⟩ := List.mem_map.mp hx
+            have : s ∉ t'.splits := fun hh => hr ⟨t', ht', hh⟩
+            simp [List.count_eq_zero_of_not_mem this]
+          simp only [hr, hall, ht, if_true, if_false]
+          have e : wsum sd.useWeights (t :: rest) s
+              = wt sd.useWeights t * (t.splits.count s : Rat) + wsum sd.useWeights rest s := by simp [wsum]
+          rw [e, hz]; simp
+        · have hall : ¬ ∃ t' ∈ t :: rest, s ∈ t'.splits := by
+            rintro ⟨t', h, h'⟩
+            rcases List.mem_cons.mp h with rfl | h
+            · exact ht h'
+            · exact hr ⟨t', h, h'⟩
+          simp [hr, hall, ht]
+
+/-! sorting -/
+theorem insertDesc_mem (x : Rat × Int) (l : List (Rat × Int)) (y : Rat × Int) :
+    y ∈ insertDesc x l ↔ y = x ∨ y ∈ l := by
+  induction l with
+  | nil => simp [insertDesc]
+  | cons z zs ih =>
+    simp only [insertDesc]
+    split
+    · simp only [List.mem_cons, ih]; tauto
+    · simp only [List.mem_cons]
+
+theorem sortDesc_mem (l : List (Rat × Int)) (y : Rat × Int) : y ∈ sortDesc l ↔ y ∈ l := by
+  induction l with
+  | nil => simp [sortDesc]
+  | cons x xs ih =>
+    simp only [sortDesc, List.foldr_cons] at ih ⊢
+    rw [insertDesc_mem, ih]; simp
+
+/-- "not before": `a` may precede `b` in a descending list -/
+def geP (a b : Rat × Int) : Prop := a.1 ≥ b.1
+
+theorem not_gtPair (a b : Rat × Int) (h : gtPair a b = false) : geP b a := by
+  unfold gtPair at h
+  unfold geP
+  simp only [Bool.or_eq_false_iff, decide_eq_false_iff_not, not_lt, Bool.and_eq_false_iff] at h
+  exact h.1
+
+theorem gtPair_ge (a b : Rat × Int) (h : gtPair a b = true) : geP a b := by
+  unfold gtPair at h
+  unfold geP
+  simp only [Bool.or_eq_true, decide_eq_true_eq, Bool.and_eq_true, beq_iff_eq] at h
+  rcases h with h | h
+  · exact le_of_lt h
+  · exact le_of_eq h.1.symm
+
+theorem insertDesc_sorted (x : Rat × Int) : ∀ l : List (Rat × Int), l.Pairwise geP → (insertDesc x l).Pairwise geP
+  | [], _ => by simp [insertDesc]
+  | z :: zs, h => by
+    simp only [insertDesc]
+    have hz := List.pairwise_cons.mp h
+    split
+    · rename_i hgt
+      refine List.pairwise_cons.mpr ⟨?_, insertDesc_sorted x zs hz.2⟩
+      intro y hy
+      rcases (insertDesc_mem x zs y).mp hy with rfl | hy
+      · exact gtPair_ge _ _ hgt
+      · exact hz.1 y hy
+    · rename_i hgt
+      have hgt' : gtPair z x = false := by simpa using hgt
+      have hxz : geP x z := not_gtPair _ _ hgt'
+      refine List.pairwise_cons.mpr ⟨?_, h⟩
+      intro y hy
+      rcases List.mem_cons.mp hy with rfl | hy
+      · exact hxz
+      · exact le_trans (hz.1 y hy) hxz
+
+theorem sortDesc_sorted (l : List (Rat × Int)) : (sortDesc l).Pairwise geP := by
+  induction l with
+  | nil => simp [sortDesc]
+  | cons x xs ih =>
+    simp only [sortDesc, List.foldr_cons] at ih ⊢
+    exact insertDesc_sorted x _ ih
+
+/-! arg max -/
+theorem go_spec : ∀ (l : List Rat) (best : Rat) (bi i : Nat),
+    let r := argmaxFirst.go best bi i l
+    (r = bi ∧ ∀ y ∈ l, y ≤ best) ∨
+    (∃ k, r = i + k ∧ ∃ h : k < l.length, best < l[k] ∧ (∀ y ∈ l, y ≤ l[k]) ∧ ∀ j (hj : j < k), l[j]'(by omega) < l[k])
+  | [], best, bi, i => by simp [argmaxFirst.go]
+  | y :: ys, best, bi, i => by
+    simp only [argmaxFirst.go]
+    split
+    · rename_i hlt
+      rcases go_spec ys y i (i + 1) with ⟨hr, hall⟩ | ⟨k, hr, hk, hby, hall, hfirst⟩
+      · right
+        refine ⟨0, by simpa using hr, by simp, by simpa using hlt, ?_, by intro j hj; omega⟩
+        intro z hz
+        rcases List.mem_cons.mp hz with rfl | hz
+        · simp
+        · simpa using hall z hz
+      · right
+        refine ⟨k + 1, by rw [hr]; omega, by simp; omega, ?_, ?_, ?_⟩
+        · simp only [List.getElem_cons_succ]; exact lt_trans hlt hby
+        · intro z hz
+          simp only [List.getElem_cons_succ]
+          rcases List.mem_cons.mp hz with rfl | hz
+          · exact le_of_lt hby
+          · exact hall z hz
+        · intro j hj
+          simp only [List.getElem_cons_succ]
+          cases j with
+          | zero => simpa using hby
+          | succ j => simpa using hfirst j (by omega)
+    · rename_i hlt
+      have hle : y ≤ best := not_lt.mp hlt
+      rcases go_spec ys best bi (i + 1) with ⟨hr, hall⟩ | ⟨k, hr, hk, hby, hall, hfirst⟩
+      · left
+        refine ⟨hr, ?_⟩
+        intro z hz
+        rcases List.mem_cons.mp hz with rfl | hz
+        · exact hle
+        · exact hall z hz
+      · right
+        refine ⟨k + 1, by rw [hr]; omega, by simp; omega, ?_, ?_, ?_⟩
+        · simpa using hby
+        · intro z hz
+          simp only [List.getElem_cons_succ]
+          rcases List.mem_cons.mp hz with rfl | hz
+          · exact le_trans hle (le_of_lt hby)
+          · exact hall z hz
+        · intro j hj
+          simp only [List.getElem_cons_succ]
+          cases j with
+          | zero => simpa using lt_of_le_of_lt hle hby
+          | succ j => simpa using hfirst j (by omega)
+
+/-! root-to-tip distances -/
+def lenR (t : T) : Rat := match t.len with | some f => Frac.toRat f | none => 0
+
+mutual
+/-- (leaf id, distance from the root) for the leaves below a node that is at distance `acc` -/
+def tips (acc : Rat) : T → List (Nat × Rat)
+  | .node i _ _ _ [] => [(i, acc)]
+  | .node _ _ _ _ (c :: cs) => tipsL acc (c :: cs)
+def tipsL (acc : Rat) : List T → List (Nat × Rat)
+  | [] => []
+  | c :: cs => tips (acc + lenR c) c ++ tipsL acc cs
+end
+
+mutual
+/-- every stored length has a non-zero denominator (true of everything `Frac.parse` and the operations produce) -/
+def LenWF : T → Prop
+  | .node _ _ l _ cs => (∀ f, l = some f → Frac.WF f) ∧ LenWFL cs
+def LenWFL : List T → Prop
+  | [] => True
+  | c :: cs => LenWF c ∧ LenWFL cs
+end
+
+theorem tips_withLen (acc : Rat) (t : T) (l : Option Frac) : tips acc (t.withLen l) = tips acc t := by
+  cases t with
+  | node i x l' s cs => cases cs <;> simp [T.withLen, tips]
+
+theorem tipsL_append (acc : Rat) (a b : List T) : tipsL acc (a ++ b) = tipsL acc a ++ tipsL acc b := by
+  induction a with
+  | nil => simp [tipsL]
+  | cons c cs ih => simp [tipsL, ih]
+
+theorem lenR_addLen (g c : T) (hg : ∀ f, g.len = some f → Frac.WF f) (hc : ∀ f, c.len = some f → Frac.WF f) :
+    lenR (g.withLen (addLen g.len c.len)) = lenR g + lenR c := by
+  cases g with
+  | node i x l s cs =>
+    cases c with
+    | node ci cx cl cs' ccs =>
+      simp only [T.withLen, lenR, T.len] at *
+      cases cl with
+      | none => cases l <;> simp [addLen]
+      | some y =>
+        cases l with
+        | none => simp [addLen]
+        | some z =>
+          simp only [addLen]
+          exact Frac.toRat_add z y (hg z rfl) (hc y rfl)
+
+theorem tipsL_push (acc : Rat) (c : T) (hc : ∀ f, c.len = some f → Frac.WF f) : ∀ (gs : List T), LenWFL gs →
+    tipsL acc (gs.map (fun g => g.withLen (addLen g.len c.len))) = tipsL (acc + lenR c) gs
+  | [], _ => by simp [tipsL]
+  | g :: gs, h => by
+    simp only [LenWFL] at h
+    have hgl : ∀ f, g.len = some f → Frac.WF f := by
+      cases g with
+      | node i x l s cs => simp only [LenWF] at h; exact fun f hf => h.1.1 f (by simpa [T.len] using hf)
+    simp only [List.map_cons, tipsL, tips_withLen, lenR_addLen g c hgl hc, tipsL_push acc c hc gs h.2]
+    congr 2; ring
+
+mutual
+theorem collapse_tips (weak : Nat → Bool) : ∀ (t : T) (acc : Rat), LenWF t →
+    tips acc (collapseWeak weak t) = tips acc t ∧ lenR (collapseWeak weak t) = lenR t ∧ LenWF (collapseWeak weak t)
+      ∧ ((collapseWeak weak t).cs = [] ↔ t.cs = [])
+  | .node i x l s [], acc, h => by simp [collapseWeak, collapseWeakL, tips, lenR, T.len, T.cs, LenWF] at *; exact h
+  | .node i x l s (c :: cs), acc, h => by
+    simp only [LenWF] at h
+    obtain ⟨h1, h2, h3⟩ := collapseL_tips weak (c :: cs) acc h.2
+    refine ⟨?_, by simp [collapseWeak, lenR, T.len], ?_, ?_⟩
+    · simp only [collapseWeak]
+      cases hk : collapseWeakL weak (c :: cs) with
+      | nil => exact absurd hk (h3 (by simp))
+      | cons d ds => simp only [tips]; rw [← hk]; exact h1
+    · simp only [collapseWeak, LenWF]; exact ⟨h.1, h2⟩
+    · simp only [collapseWeak, T.cs]; constructor
+      · intro hh; exact absurd hh (h3 (by simp))
+      · intro hh; cases hh
+theorem collapseL_tips (weak : Nat → Bool) : ∀ (cs : List T) (acc : Rat), LenWFL cs →
+    tipsL acc (collapseWeakL weak cs) = tipsL acc cs ∧ LenWFL (collapseWeakL weak cs)
+      ∧ (cs ≠ [] → collapseWeakL weak cs ≠ [])
+  | [], acc, _ => by simp [collapseWeakL, tipsL, LenWFL]
+  | c :: cs, acc, h => by
+    simp only [LenWFL] at h
+    obtain ⟨ih1, ih2, _⟩ := collapseL_tips weak cs acc h.2
+    have hc := collapse_tips weak c
+    have hwf := (hc acc h.1).2.2.1
+    have hlen := (hc acc h.1).2.1
+    have hemp := (hc acc h.1).2.2.2
+    simp only [collapseWeakL]
+    split
+    · rename_i hw
+      simp only [Bool.and_eq_true, Bool.not_eq_true', List.isEmpty_eq_false_iff] at hw
+      -- the collapsed node's children take its place and absorb its length
+      have hwf' := hwf
+      cases hcc : collapseWeak weak c with
+      | node i x l s gs =>
+        rw [hcc] at hwf' hlen hw hemp
+        simp only [LenWF] at hwf'
+        have hcl : ∀ f, (T.node i x l s gs).len = some f → Frac.WF f := fun f hf => hwf'.1 f (by simpa [T.len] using hf)
+        have hpush := tipsL_push acc (T.node i x l s gs) hcl gs hwf'.2
+        simp only [T.cs] at hpush ⊢
+        refine ⟨?_, ?_, ?_⟩
+        · rw [tipsL_append, hpush, ih1]
+          simp only [tipsL]
+          congr 1
+          have ht := (hc (acc + lenR c) h.1).1
+          rw [hcc] at ht
+          rw [hlen, ← ht]
+          cases gs with
+          | nil => simp [T.cs] at hw
+          | cons g gs' => simp [tips]
+        · -- LenWFL of the appended list
+          have hmapwf : ∀ (l' : List T), LenWFL l' → LenWFL (l'.map (fun g => g.withLen (addLen g.len (T.node i x l s gs).len))) := by
+            intro l'
+            induction l' with
+            | nil => intro _; simp [LenWFL]
+            | cons g gs' ihg =>
+              intro hh
+              simp only [LenWFL] at hh
+              simp only [List.map_cons, LenWFL]
+              refine ⟨?_, ihg hh.2⟩
+              cases g with
+              | node gi gx gl gs2 gcs =>
+                simp only [T.withLen, LenWF, T.len] at hh ⊢
+                refine ⟨?_, hh.1.2⟩
+                intro f hf
+                cases l with
+                | none => simp [addLen] at hf; exact hh.1.1 f hf
+                | some y =>
+                  cases gl with
+                  | none => simp [addLen] at hf; rw [← hf]; exact hwf'.1 y rfl
+                  | some z => simp [addLen] at hf; rw [← hf]; exact Frac.wf_add z y
+          have happ : ∀ (a b : List T), LenWFL a → LenWFL b → LenWFL (a ++ b) := by
+            intro a b ha hb
+            induction a with
+            | nil => simpa using hb
+            | cons q qs ihq => simp only [LenWFL] at ha; simp only [List.cons_append, LenWFL]; exact ⟨ha.1, ihq ha.2⟩
+          exact happ _ _ (hmapwf gs hwf'.2) ih2
+        · intro _
+          cases gs with
+          | nil => simp [T.cs] at hw
+          | cons g gs' => simp
+    · refine ⟨?_, ?_, by simp⟩
+      · simp only [List.cons_append, List.nil_append, tipsL, hlen, (hc (acc + lenR c) h.1).1, ih1]
+      · simp only [List.cons_append, List.nil_append, LenWFL]; exact ⟨hwf, ih2⟩
+end
+
+end DendroModel.C05.Aux
+
 namespace DendroModel.C05
-theorem stub : True := trivial
+open DendroModel DendroModel.Hier DendroModel.C05.Aux
+
+/-! ### (a) frequencies -/
+
+/-- the count of a split is the total weight of its occurrences; a split that occurs in no tree has no entry -/
+theorem count_spec (useW : Bool) (ts : List TreeRec) (s : Int) :
+    countOf (countAll useW ts).counts s
+      = if ∃ t ∈ ts, s ∈ t.splits then some (wsum useW ts s) else none := by
+  have := (countAll_gen s ts { useWeights := useW }).2.2.2
+  unfold countAll
+  rw [this]
+  simp [countOf]
+
+/-- nothing is reported for a split that occurs in no tree -/
+theorem freq_absent (useW : Bool) (ts : List TreeRec) (s : Int) (h : ∀ t ∈ ts, s ∉ t.splits) :
+    freq (countAll useW ts) s = 0 := by
+  unfold freq
+  rw [count_spec]
+  have : ¬ ∃ t ∈ ts, s ∈ t.splits := by rintro ⟨t, ht, hs⟩; exact h t ht hs
+  simp [this]
+
+/-- the frequency of a split is the weighted fraction of trees containing it: total weight of its occurrences over the
+    sum of the tree weights (over the number of trees when that sum is zero) -/
+theorem freq_spec (useW : Bool) (ts : List TreeRec) (s : Int) (h : ∃ t ∈ ts, s ∈ t.splits) :
+    freq (countAll useW ts) s
+      = wsum useW ts s / (if (ts.map (wt useW)).sum = 0 then (ts.length : Rat) else (ts.map (wt useW)).sum) := by
+  have hg := countAll_gen s ts { useWeights := useW }
+  unfold freq
+  rw [count_spec]
+  simp only [h, if_true]
+  have htot : (countAll useW ts).total = ts.length := by unfold countAll; rw [hg.2.1]; simp
+  have hsw : (countAll useW ts).sumW = (ts.map (wt useW)).sum := by unfold countAll; rw [hg.2.2.1]; simp
+  obtain ⟨t, ht, _⟩ := h
+  have hne : ts.length ≠ 0 := by intro h0; rw [List.length_eq_zero_iff] at h0; subst h0; cases ht
+  simp only [htot, normW, hsw]
+  have : ¬ ((ts.length == 0) = true) := by simpa using hne
+  simp only [this, if_false]
+  by_cases hz : (ts.map (wt useW)).sum = 0
+  · simp [hz]
+  · simp [hz]
+
+/-- with every tree counted once per split (no repeated split in one encoding) and unit weights, the frequency is
+    the plain fraction of trees that contain the split -/
+theorem freq_unweighted (ts : List TreeRec) (s : Int) (hnd : ∀ t ∈ ts, t.splits.Nodup) (h : ∃ t ∈ ts, s ∈ t.splits) :
+    freq (countAll false ts) s = ((ts.filter (fun t => decide (s ∈ t.splits))).length : Rat) / (ts.length : Rat) := by
+  rw [freq_spec false ts s h]
+  have hw : ∀ t : TreeRec, wt false t = 1 := by intro t; unfold wt; cases t.weight <;> simp
+  have hsum : ∀ l : List TreeRec, (l.map (wt false)).sum = (l.length : Rat) := by
+    intro l
+    induction l with
+    | nil => simp
+    | cons t r ih => simp [hw, ih]; ring
+  have hne : (ts.length : Rat) ≠ 0 := by
+    obtain ⟨t, ht, _⟩ := h
+    have : ts.length ≠ 0 := by intro h0; rw [List.length_eq_zero_iff] at h0; subst h0; cases ht
+    exact_mod_cast this
+  rw [hsum ts]
+  simp only [hne, if_false]
+  congr 1
+  have key : ∀ l : List TreeRec, (∀ t ∈ l, t.splits.Nodup) →
+      wsum false l s = ((l.filter (fun t => decide (s ∈ t.splits))).length : Rat) := by
+    intro l
+    induction l with
+    | nil => intro _; simp [wsum]
+    | cons t rest ih =>
+      intro hnd'
+      have ih' := ih (fun t' ht' => hnd' t' (List.mem_cons_of_mem _ ht'))
+      have hn := hnd' t (by simp)
+      have e : wsum false (t :: rest) s = (t.splits.count s : Rat) + wsum false rest s := by simp [wsum, hw]
+      rw [e, ih', List.filter_cons]
+      by_cases hs : s ∈ t.splits
+      · simp [hs, List.count_eq_one_of_mem hn hs]; ring
+      · simp [hs, List.count_eq_zero_of_not_mem hs]
+  exact key ts hnd
+
+/-! ### (b) majority rule -/
+
+/-- two splits each carried by more than half of the total (non-negative) tree weight occur together in some tree -/
+theorem majority_cooccur (useW : Bool) (ts : List TreeRec) (a b : Int)
+    (hnd : ∀ t ∈ ts, t.splits.Nodup) (hw : ∀ t ∈ ts, 0 ≤ wt useW t)
+    (ha : (ts.map (wt useW)).sum < 2 * wsum useW ts a) (hb : (ts.map (wt useW)).sum < 2 * wsum useW ts b) :
+    ∃ t ∈ ts, a ∈ t.splits ∧ b ∈ t.splits := by
+  by_contra hno
+  have key : ∀ l : List TreeRec, (∀ t ∈ l, t.splits.Nodup) → (∀ t ∈ l, 0 ≤ wt useW t) →
+      (∀ t ∈ l, ¬ (a ∈ t.splits ∧ b ∈ t.splits)) → wsum useW l a + wsum useW l b ≤ (l.map (wt useW)).sum := by
+    intro l
+    induction l with
+    | nil => intro _ _ _; simp [wsum]
+    | cons t rest ih =>
+      intro h1 h2 h3
+      have ih' := ih (fun x hx => h1 x (List.mem_cons_of_mem _ hx)) (fun x hx => h2 x (List.mem_cons_of_mem _ hx))
+        (fun x hx => h3 x (List.mem_cons_of_mem _ hx))
+      have hn := h1 t (by simp)
+      have hwt := h2 t (by simp)
+      have hab := h3 t (by simp)
+      unfold wsum at ih' ⊢
+      simp only [List.map_cons, List.sum_cons]
+      have ca : (t.splits.count a : Rat) = if a ∈ t.splits then 1 else 0 := by
+        by_cases h : a ∈ t.splits
+        · simp [h, List.count_eq_one_of_mem hn h]
+        · simp [h, List.count_eq_zero_of_not_mem h]
+      have cb : (t.splits.count b : Rat) = if b ∈ t.splits then 1 else 0 := by
+        by_cases h : b ∈ t.splits
+        · simp [h, List.count_eq_one_of_mem hn h]
+        · simp [h, List.count_eq_zero_of_not_mem h]
+      rw [ca, cb]
+      by_cases h1' : a ∈ t.splits <;> by_cases h2' : b ∈ t.splits
+      · exact absurd ⟨h1', h2'⟩ hab
+      · simp [h1', h2']; linarith
+      · simp [h1', h2']; linarith
+      · simp [h1', h2']; linarith
+  have := key ts hnd hw (fun t ht hab => hno ⟨t, ht, hab⟩)
+  linarith
+
+/-- hence splits above one half are pairwise nested or disjoint whenever every tree's splits are the clades of a
+    well-formed tree (rooted encodings) — exactly the hypothesis under which `C01.build_spec` inserts all of them, in any order -/
+theorem majority_pairwise_laminar (useW : Bool) (ts : List TreeRec) (a b : Nat)
+    (hnd : ∀ t ∈ ts, t.splits.Nodup) (hw : ∀ t ∈ ts, 0 ≤ wt useW t)
+    (htree : ∀ t ∈ ts, ∃ h : Hier.T, Good h ∧ ∀ x : Nat, (x : Int) ∈ t.splits → x ∈ clades h)
+    (ha : (ts.map (wt useW)).sum < 2 * wsum useW ts (a : Int)) (hb : (ts.map (wt useW)).sum < 2 * wsum useW ts (b : Int)) :
+    Lam a b := by
+  obtain ⟨t, ht, h1, h2⟩ := majority_cooccur useW ts a b hnd hw ha hb
+  obtain ⟨h, hg, hcl⟩ := htree t ht
+  exact clades_laminar h hg a (hcl a h1) b (hcl b h2)
+
+/-! ### (c) lower thresholds: greedy, maximal, in decreasing order of frequency -/
+
+/-- candidates are sorted by decreasing frequency -/
+theorem candidates_sorted (sd : SD) (mf : Option Rat) :
+    ∃ l : List (Rat × Int), candidates sd mf = l.map (·.2) ∧ l.Pairwise (fun a b => a.1 ≥ b.1)
+      ∧ ∀ p ∈ l, p.1 = freq sd p.2 := by
+  unfold candidates
+  refine ⟨_, rfl, sortDesc_sorted _, ?_⟩
+  intro p hp
+  rw [sortDesc_mem] at hp
+  obtain ⟨q, _, rfl⟩ := List.mem_map.mp hp
+  rfl
+
+/-- no candidate is below the threshold (for a threshold that is not within 1e-7 of 1) -/
+theorem candidates_threshold (sd : SD) (m : Rat) (hm : ¬ C04.absR (m - 1) ≤ (1 : Rat) / 10000000) :
+    ∀ s ∈ candidates sd (some m), freq sd s ≥ m := by
+  intro s hs
+  unfold candidates at hs
+  obtain ⟨p, hp, rfl⟩ := List.mem_map.mp hs
+  rw [sortDesc_mem] at hp
+  obtain ⟨q, hq, rfl⟩ := List.mem_map.mp hp
+  have := (List.mem_filter.mp hq).2
+  simp only [Bool.or_eq_true, decide_eq_true_eq, Bool.and_eq_true] at this
+  rcases this with h | ⟨h, _⟩
+  · exact h
+  · exact absurd h hm
+
+/-- greedy insertion in the given order: the result is well formed over the same leaves, contains only offered splits
+    (besides the clades it started with), and is maximal — every offered split is either in the tree or conflicts with
+    a clade of the tree -/
+theorem greedy_spec (t0 : Hier.T) (hg : Good t0) : ∀ (ss : List Nat), (∀ s ∈ ss, s ≠ 0) →
+    let t := ss.foldl C01.addSplit t0
+    Good t ∧ Hier.mask t = Hier.mask t0
+    ∧ (∀ x ∈ clades t0, x ∈ clades t)
+    ∧ (∀ x ∈ clades t, x ∈ clades t0 ∨ x ∈ ss)
+    ∧ (∀ s ∈ ss, s &&& Hier.mask t0 = s → s ∈ clades t ∨ ¬ Compat s (clades t)) := by
+  intro ss
+  induction ss generalizing t0 with
+  | nil => intro _; simp [hg]
+  | cons s rest ih =>
+    intro hne
+    have hs0 := hne s (by simp)
+    simp only [List.foldl_cons]
+    -- one step
+    have hstep : Good (C01.addSplit t0 s) ∧ Hier.mask (C01.addSplit t0 s) = Hier.mask t0
+        ∧ (∀ x, x ∈ clades (C01.addSplit t0 s) ↔ (x ∈ clades t0 ∨ (x = s ∧ s &&& Hier.mask t0 = s ∧ Compat s (clades t0)))) := by
+      unfold C01.addSplit
+      by_cases hsub : s &&& Hier.mask t0 = s
+      · have : (s &&& Hier.mask t0 != s) = false := by simp [hsub]
+        simp only [this, Bool.false_eq_true, if_false]
+        obtain ⟨h1, h2, h3⟩ := ins_step s hs0 t0 hg hsub
+        refine ⟨h1, h2, fun x => ?_⟩
+        rw [h3 x]; simp [hsub]
+      · have : (s &&& Hier.mask t0 != s) = true := by simp [hsub]
+        simp only [this, if_true]
+        refine ⟨hg, by simp, fun x => by simp [hsub]⟩
+    obtain ⟨hg1, hm1, hcl1⟩ := hstep
+    obtain ⟨hgF, hmF, hsubF, hsupF, hmaxF⟩ := ih (C01.addSplit t0 s) hg1 (fun x hx => hne x (by simp [hx]))
+    refine ⟨hgF, hmF.trans hm1, ?_, ?_, ?_⟩
+    · intro x hx; exact hsubF x ((hcl1 x).mpr (Or.inl hx))
+    · intro x hx
+      rcases hsupF x hx with h | h
+      · rcases (hcl1 x).mp h with h' | ⟨rfl, _⟩
+        · exact Or.inl h'
+        · exact Or.inr (by simp)
+      · exact Or.inr (by simp [h])
+    · intro x hx hsub
+      rcases List.mem_cons.mp hx with rfl | hx
+      · by_cases hc : Compat x (clades t0)
+        · left; exact hsubF x ((hcl1 x).mpr (Or.inr ⟨rfl, hsub, hc⟩))
+        · right
+          intro hcf
+          apply hc
+          exact compat_sub hcf (fun y hy => hsubF y ((hcl1 y).mpr (Or.inl hy)))
+      · exact hmaxF x hx (by rw [hm1]; exact hsub)
+
+/-! ### (d) the consensus spans the star's leaves -/
+
+/-- the consensus tree is well formed and has the leaf set of the star over the namespace: every taxon once -/
+theorem consensus_spans (sd : SD) (mf : Option Rat) (all : Nat) (members : List Nat) (rooted : Bool)
+    (hg : Good (starOf members)) :
+    Good (consensus sd mf all members rooted) ∧ Hier.mask (consensus sd mf all members rooted) = Hier.mask (starOf members) := by
+  unfold consensus C01.build
+  have hne : ∀ s ∈ List.filterMap (C01.prep all rooted) (List.map Int.toNat (candidates sd mf)), s ≠ 0 := by
+    intro s hs
+    obtain ⟨x, _, hx⟩ := List.mem_filterMap.mp hs
+    unfold C01.prep at hx
+    simp only at hx
+    split at hx
+    · rename_i hcond
+      simp only [Bool.and_eq_true, bne_iff_ne, ne_eq] at hcond
+      have hm : x &&& all ≠ 0 := by
+        intro h0; rw [h0] at hcond; simp at hcond
+      split at hx
+      · simp at hx; rw [← hx]; exact hm
+      · split at hx
+        · simp at hx; rw [← hx]
+          intro hz
+          -- sdiff all m = 0 with m ⊆ all means m = all
+          apply hcond.1
+          apply Hier.bits_inj
+          have := Hier.bits_sdiff all (x &&& all)
+          rw [hz, Hier.bits_zero] at this
+          ext i
+          constructor
+          · intro hi; rw [Hier.bits_and] at hi; exact hi.2
+          · intro hi
+            by_contra hni
+            have : i ∈ (∅ : Set Nat) := by rw [this]; exact ⟨hi, hni⟩
+            exact this
+        · simp at hx; rw [← hx]; exact hm
+    · cases hx
+  have := greedy_spec (starOf members) hg _ hne
+  exact ⟨this.1, this.2.1⟩
+
+/-! ### (g) maximum credibility -/
+
+/-- the reported maximiser is the first index attaining the maximum of the reported scores -/
+theorem argmaxFirst_spec (x : Rat) (xs : List Rat) :
+    ∃ i, argmaxFirst (x :: xs) = some i ∧ ∃ h : i < (x :: xs).length,
+      (∀ y ∈ x :: xs, y ≤ (x :: xs)[i]) ∧ ∀ j (hj : j < i), (x :: xs)[j]'(by omega) < (x :: xs)[i] := by
+  unfold argmaxFirst
+  rcases go_spec xs x 0 1 with ⟨hr, hall⟩ | ⟨k, hr, hk, hby, hall, hfirst⟩
+  · refine ⟨0, by simp [hr], by simp, ?_, by intro j hj; omega⟩
+    intro y hy
+    rcases List.mem_cons.mp hy with rfl | hy
+    · simp
+    · simpa using hall y hy
+  · refine ⟨k + 1, by simp [hr]; omega, by simp; omega, ?_, ?_⟩
+    · intro y hy
+      simp only [List.getElem_cons_succ]
+      rcases List.mem_cons.mp hy with rfl | hy
+      · exact le_of_lt hby
+      · exact hall y hy
+    · intro j hj
+      simp only [List.getElem_cons_succ]
+      cases j with
+      | zero => simpa using hby
+      | succ j => simpa using hfirst j (by omega)
+
+/-! ### (f) collapsing weakly supported edges -/
+
+/-- collapsing every flagged internal edge (each child of a collapsed node absorbing its length) keeps every
+    root-to-tip distance, and the leaves in their order -/
+theorem collapse_keeps_root_tip (weak : Nat → Bool) (t : T) (h : LenWF t) :
+    tips 0 (collapseWeak weak t) = tips 0 t :=
+  (collapse_tips weak t 0 h).1
+
 end DendroModel.C05
